@@ -278,7 +278,7 @@ fn run_generic<K: SimKernel<D>, const D: usize>(header: &Header, replay: Option<
             history::run::<K, D>(header, &profile, replay, &mut ms)
         }
         "C19" => {
-            let mut m = monitors::c19::C19;
+            let mut m = monitors::c19::C19::<K, D>::default();
             let mut ms: Vec<&mut dyn Monitor<K, D>> = vec![&mut m];
             history::run::<K, D>(header, &profile, replay, &mut ms)
         }
